@@ -379,7 +379,7 @@ func TestVerifC01(t *testing.T) {
 		payLens := []int{65536}
 		if thorough {
 			listLens = append(listLens, 65535)
-			payLens = append(payLens, 1<<20, int(maximumLength)-64)
+			payLens = append(payLens, 1<<20)
 		}
 		has := func(kind reflect.Kind, elem reflect.Kind) bool {
 			found := false
